@@ -585,3 +585,18 @@ def deep_copy(E, v):
     if isinstance(v, tuple):
         return tuple(deep_copy(E, x) for x in v)
     return v
+
+
+@external("builtins.int.from_bytes", "B1: int.from_bytes(b, 'big') is the big-endian value b2i(b)")
+def _from_bytes(E, a, kw, fr, node):
+    b = a[0]
+    order = a[1] if len(a) > 1 else kw.get("byteorder", "big")
+    if order != "big":
+        raise Unsupported("little endian")
+    if isinstance(b, (bytes, bytearray)):
+        return int.from_bytes(b, "big")
+    if isinstance(b, Ref) and E.cell(b)[0] == "bytearray":
+        b = E.cell(b)[1]
+    if not is_byteslike(b):
+        raise PyRaise("TypeError", _line(node))
+    return SV(L.b2i(lift(b).t), TInt)
